@@ -1,7 +1,7 @@
 (* C15 — property theorems only. M is `run true` over the tables of the source (Model.v + Interp.v), S is
    `run false` (Spec.v + Interp.v); the theorems over the tables regenerated on every run are in
    TableProofs.v. *)
-From C15 Require Import Model Spec Interp Corr IntProofs WordProofs EnglishProofs RomanProofs Proofs.
+From C15 Require Import Model Spec Interp Corr IntProofs WordProofs EnglishProofs RomanProofs CaseProofs Proofs.
 
 (* ======== ~D ~B ~O ~X ~nR: "render any integer in the right base with the requested width, padding, sign
    and grouping" ======== *)
@@ -228,6 +228,14 @@ Theorem C15_english_site_coincides : forall colon c z, arg_at c = Some (VInt z) 
   dir_radix true src_tables colon false [] c = dir_radix false src_tables colon false [] c.
 Proof. exact english_site_coincides. Qed.
 Print Assumptions C15_english_site_coincides.
+
+(* (13) ~( ~:( ~@( ~:@( : the conversion dirCase applies to the text of its body (bytes.ToLower, bytes.ToUpper,
+   appendCapitalized) is string-downcase / string-capitalize / first word capitalized and the rest lower case /
+   string-upcase of the definition, for every text (since repo_fixes/C15-18; cases.Title capitalised "2nd" to "2Nd":
+   finding C15-capitalize-digit-words). *)
+Theorem C15_case_conversion : forall colon at_ t, go_case colon at_ t = std_case colon at_ t.
+Proof. exact go_case_is_std_case. Qed.
+Print Assumptions C15_case_conversion.
 
 (* FULL statement wanted:  forall T fuel control args, untainted (M_run T fuel control args) = true ->
    fst (M_run T fuel control args) = fst (S_run fuel control args)   (inside the guard the model of the Go code
